@@ -6,7 +6,7 @@ def v(id,prop,file,old,new,expect,kind="break",note=""):
 v("c01-sort-nocopy","C01","qframe.go","newDf := qf.withIndex(qf.index.Copy())","newDf := qf.withIndex(qf.index)","R1","break","Sort sorts the receiver's index in place")
 v("c01-setcolumn-share","C01","qframe.go","	newF.columns = make([]namedColumn, newColCount)\n","	newF.columns = qf.columns[:newColCount:newColCount]\n","R1","break","overwrite branch writes into the shared column slice")
 v("c01-apply1-inplace","C01","internal/icolumn/column_gen.go","	case func(int) int:\n		result := make([]int, len(c.data))","	case func(int) int:\n		result := c.data","R1","break","Apply1 writes into the source column")
-v("c01-select-rename-local","C01","qframe.go","	newColumnsByName := make(map[string]namedColumn, len(columns))\n	newColumns := make([]namedColumn, len(columns))\n	for i, col := range columns {\n		s := qf.columnsByName[col]\n		s.pos = i\n		newColumnsByName[col] = s\n		newColumns[i] = s\n	}\n\n	return QFrame{columns: newColumns, columnsByName: newColumnsByName, index: qf.index}","	byName := make(map[string]namedColumn, len(columns))\n	cols := make([]namedColumn, len(columns))\n	for i, col := range columns {\n		s := qf.columnsByName[col]\n		s.pos = i\n		byName[col] = s\n		cols[i] = s\n	}\n\n	return QFrame{columns: cols, columnsByName: byName, index: qf.index}","","benign","rename locals")
+v("c01-select-rename-local","C01","qframe.go","	newColumnsByName := make(map[string]namedColumn, len(columns))\n	newColumns := make([]namedColumn, len(columns))\n	for i, col := range columns {\n		if _, ok := newColumnsByName[col]; ok {\n			return qf.withErr(qerrors.New(\"Select\", `column \"%s\" selected more than once`, col))\n		}\n\n		s := qf.columnsByName[col]\n		s.pos = i\n		newColumnsByName[col] = s\n		newColumns[i] = s\n	}\n\n	return QFrame{columns: newColumns, columnsByName: newColumnsByName, index: qf.index}","	byName := make(map[string]namedColumn, len(columns))\n	cols := make([]namedColumn, len(columns))\n	for i, col := range columns {\n		if _, ok := byName[col]; ok {\n			return qf.withErr(qerrors.New(\"Select\", `column \"%s\" selected more than once`, col))\n		}\n\n		s := qf.columnsByName[col]\n		s.pos = i\n		byName[col] = s\n		cols[i] = s\n	}\n\n	return QFrame{columns: cols, columnsByName: byName, index: qf.index}","","benign","rename locals")
 # C02
 v("c02-kernel-noguard","C02","internal/icolumn/filters_gen.go","func lt(index index.Int, column []int, comp int, bIndex index.Bool) {\n	for i, x := range bIndex {\n		if !x {\n			bIndex[i] = column[index[i]] < comp\n		}\n	}\n}","func lt(index index.Int, column []int, comp int, bIndex index.Bool) {\n	for i := range bIndex {\n		bIndex[i] = column[index[i]] < comp\n	}\n}","R3")
 v("c02-kernel-physical","C02","internal/fcolumn/filters_gen.go","func gte(index index.Int, column []float64, comp float64, bIndex index.Bool) {\n	for i, x := range bIndex {\n		if !x {\n			bIndex[i] = column[index[i]] >= comp","func gte(index index.Int, column []float64, comp float64, bIndex index.Bool) {\n	for i, x := range bIndex {\n		if !x {\n			bIndex[i] = column[i] >= comp","R6")
@@ -57,7 +57,7 @@ v("c10-table-nocommaok","C10","internal/fcolumn/column.go","		compFunc, ok := fi
 # C11
 v("c11-global-buf","C11","internal/strings/match.go","func (m *CIExactMatcher) Matches(s string) bool {\n	return ToUpper(&m.buf, s) == m.matchString\n}","var sharedBuf []byte\n\nfunc (m *CIExactMatcher) Matches(s string) bool {\n	return ToUpper(&sharedBuf, s) == m.matchString\n}","R2")
 # C12/C15
-v("c15-more-nil","C15","internal/fastcsv/csv.go","	b.data = b.data[:len(b.data)+n]\n	return err\n}","	b.data = b.data[:len(b.data)+n]\n	_ = err\n	return nil\n}","R24")
+v("c15-more-nil","C15","internal/fastcsv/csv.go","		if n > 0 || err != nil {\n			return err\n		}","		if n > 0 || err != nil {\n			_ = err\n			return nil\n		}","R24")
 v("c15-tojson-dropwrite","C15","qframe.go","		_, err = writer.Write(jsonBuf)\n		if err != nil {\n			return err\n		}\n	}\n\n	_, err = writer.Write([]byte{']'})","		writer.Write(jsonBuf)\n	}\n\n	_, err = writer.Write([]byte{']'})","R31")
 v("c15-csv-noerr","C15","internal/io/csv.go","	if r.Err() != nil {\n		return nil, nil, qerrors.Propagate(\"ReadCSV read body\", r.Err())\n	}\n\n	if conf.MissingColumnNameAlias","	if conf.MissingColumnNameAlias","R29")
 v("c15-flush-noerr","C15","qframe.go","	w.Flush()\n	return w.Error()","	w.Flush()\n	return nil","R30")
@@ -82,6 +82,21 @@ v("c18-runeself","C18","internal/strings/convert.go","			if r < utf8.RuneSelf {"
 v("c19-nobuilder","C19","internal/io/sql/types.go","	case ecolumn.Column:","	case *ecolumn.Column:","R36")
 v("c19-rows-err","C19","internal/io/sql/reader.go","	if err := rows.Err(); err != nil {\n		return nil, colNames, qerrors.New(\"ReadSQL Rows\", err.Error())\n	}\n","","R29")
 
+# ---- positive examples for the clauses added after the third mutation run (each must be reported by the named rule) ----
+v("m3-view-ok-untested","C10","qframe_gen.go","	namedColumn, ok := qf.columnsByName[colName]\n	if !ok {\n		return IntView{}, qerrors.New(\"IntView\", \"unknown column: %s\", colName)\n	}","	namedColumn, ok := qf.columnsByName[colName]\n	if !ok {\n	}","R84","break","emptied `if !ok` body: the ok result guards nothing")
+v("m3-view-wrongtype-nil","C10","qframe_gen.go","		return IntView{}, qerrors.New(\n			\"IntView\",\n			\"invalid column type, expected: %s, was: %s\", \"int\", namedColumn.DataType())","		return IntView{}, nil","R84","break","failed assertion returns a nil error")
+v("m3-apply1-next-slot","C06","internal/icolumn/column_gen.go","	case func(int) float64:\n		result := make([]float64, len(c.data))\n		for _, i := range ix {\n			result[i] = t(c.data[i])","	case func(int) float64:\n		result := make([]float64, len(c.data))\n		for _, i := range ix {\n			result[i+1] = t(c.data[i])","R42","break","result stored beside its row")
+v("m3-tocsv-errguard","C10","qframe.go","	conf := csv.NewToConfig(confFuncs)\n	if qf.Err != nil {\n		return qerrors.Propagate(\"ToCSV\", qf.Err)\n	}","	conf := csv.NewToConfig(confFuncs)","R20","break","writer without the sticky-error guard")
+v("m3-filteredapply-errguard","C06","qframe.go","	filteredQf := qf.Filter(clause)\n	if filteredQf.Err != nil {\n		return filteredQf\n	}","	filteredQf := qf.Filter(clause)","R137","break","index of a failed Filter used without looking at Err")
+v("m3-aggregate-nil-nil","C10","internal/fcolumn/column_gen.go","			return nil, qerrors.New(c.fnName(\"Aggregate\"), \"aggregation function %c is not defined for column\", fn)","			return nil, nil","R138","break","neither a column nor an error")
+v("m3-readcsv-swallow","C15","internal/io/csv.go","	if r.Err() != nil {\n		return nil, nil, qerrors.Propagate(\"ReadCSV read body\", r.Err())\n	}\n\n	if conf.MissingColumnNameAlias","	if r.Err() != nil {\n		return nil, nil, nil\n	}\n\n	if conf.MissingColumnNameAlias","R138","break","failure branch returns a nil error")
+v("m3-ifslice-offset","C02","internal/strings/convert.go","		result[i] = s\n	}\n\n	return result\n}","		result[i+1] = s\n	}\n\n	return result\n}","R139","break","key+1 into a slice as long as the ranged one")
+v("m3-lens-nil","C07","function/string.go","	if s == nil {\n		return 0\n	}\n\n	return len(*s)","	return len(*s)","R140","break","built-in dereferences a null cell")
+v("m3-constexpr-nobool","C07","expression.go","	case int, float64, bool, string, *string:","	case int, float64, string, *string:","R141","break","bool constants no longer recognised")
+v("m3-ctx-swap-str-int","C07","config/eval/context.go","					\"str\": function.StrF,\n					\"int\": function.IntF,","					\"str\": function.IntF,\n					\"int\": function.StrF,","R114","break","neighbouring table values swapped")
+v("m3-ctx-upper-lower","C07","config/eval/context.go","					\"upper\": function.UpperS,\n					\"lower\": function.LowerS,","					\"upper\": function.LowerS,\n					\"lower\": function.UpperS,","R114","break","upper and lower swapped")
+v("m3-setfunc-dropcase","C07","config/eval/context.go","	case func(int) int, func(int) bool, func(int) float64, func(int) *string:","	case func(int) int, func(int) bool, func(int) *string:","R103","break","an executable signature can no longer be registered")
+
 # ---- benign refactors: must stay silent ----
 v("b-kernel-index-load","C02","internal/fcolumn/filters_gen.go","func lt(index index.Int, column []float64, comp float64, bIndex index.Bool) {\n	for i, x := range bIndex {\n		if !x {\n			bIndex[i] = column[index[i]] < comp\n		}\n	}\n}","func lt(index index.Int, column []float64, comp float64, bIndex index.Bool) {\n	for i := range bIndex {\n		if bIndex[i] {\n			continue\n		}\n		bIndex[i] = column[index[i]] < comp\n	}\n}","","benign","load the accumulator by index, guard as continue")
 v("b-filter-prealloc","C02","internal/index/index.go","	result := make(Int, 0, count)\n	for i, b := range bIx {\n		if b {\n			result = append(result, ix[i])\n		}\n	}\n\n	return result","	result := make(Int, count)\n	n := 0\n	for i, b := range bIx {\n		if b {\n			result[n] = ix[i]\n			n++\n		}\n	}\n\n	return result","","benign","preallocate and fill by counter")
@@ -89,7 +104,7 @@ v("b-sort-localcopy","C03","qframe.go","	newDf := qf.withIndex(qf.index.Copy())\
 v("b-sort-localcopy-c01","C01","qframe.go","	newDf := qf.withIndex(qf.index.Copy())\n	sorter := qfsort.New(newDf.index, comparables)\n	sorter.Sort()\n	return newDf","	newIx := qf.index.Copy()\n	sorter := qfsort.New(newIx, comparables)\n	sorter.Sort()\n	return qf.withIndex(newIx)","","benign","copy the index into a local first")
 v("b-setcolumn-append-fresh","C01","qframe.go","	newF.columns = make([]namedColumn, newColCount)\n	newF.columnsByName = make(map[string]namedColumn, newColCount)\n	copy(newF.columns, qf.columns)\n","	newF.columns = make([]namedColumn, newColCount)\n	newF.columnsByName = make(map[string]namedColumn, newColCount)\n	for i := range qf.columns {\n		newF.columns[i] = qf.columns[i]\n	}\n","","benign","element-wise copy instead of copy()")
 v("b-setcolumn-loopcopy-c06","C06","qframe.go","	newF.columns = make([]namedColumn, newColCount)\n	newF.columnsByName = make(map[string]namedColumn, newColCount)\n	copy(newF.columns, qf.columns)\n","	newF.columns = make([]namedColumn, newColCount)\n	newF.columnsByName = make(map[string]namedColumn, newColCount)\n	for i := range qf.columns {\n		newF.columns[i] = qf.columns[i]\n	}\n","","benign","element-wise copy instead of copy()")
-v("b-eval-early-return","C07","qframe.go","	result = result.Copy(dstCol, colName)\n	if !qf.Contains(colName) {\n		result = result.Drop(colName)\n	}\n\n	return result","	result = result.Copy(dstCol, colName)\n	if qf.Contains(colName) {\n		return result\n	}\n\n	return result.Drop(colName)","","benign","invert the guard")
+v("b-eval-early-return","C07","qframe.go","	result = result.Copy(dstCol, colName)\n	if colName != dstCol && !qf.Contains(colName) {\n		result = result.Drop(colName)\n	}\n\n	return result","	result = result.Copy(dstCol, colName)\n	if colName == dstCol || qf.Contains(colName) {\n		return result\n	}\n\n	return result.Drop(colName)","","benign","invert the guard")
 v("b-readcsv-single-err","C15","internal/io/csv.go","	if r.Err() != nil {\n		return nil, nil, qerrors.Propagate(\"ReadCSV read body\", r.Err())\n	}\n\n	if conf.MissingColumnNameAlias","	if err := r.Err(); err != nil {\n		return nil, nil, qerrors.Propagate(\"ReadCSV read body\", err)\n	}\n\n	if conf.MissingColumnNameAlias","","benign","call Err() once")
 v("b-tocsv-explicit","C15","qframe.go","	w.Flush()\n	return w.Error()","	w.Flush()\n	if err := w.Error(); err != nil {\n		return err\n	}\n\n	return nil","","benign","explicit error test after Flush")
 v("b-hash-plus-zero","C04","internal/fcolumn/column.go","	if f == 0 {\n		// 0.0 and -0.0 compare equal, make sure they hash equal.\n		f = 0\n	}\n","	// 0.0 and -0.0 compare equal, adding zero turns -0.0 into 0.0.\n	f = f + 0\n","","benign","normalise zero by adding 0")
